@@ -5,6 +5,7 @@ package c10
 import (
 	"context"
 	"encoding/json"
+	"errors"
 	"fmt"
 	"sort"
 	"strings"
@@ -29,6 +30,9 @@ type frameWriter struct {
 	// answered and the released work gets the processor (the lock discipline of the
 	// resolver decides what it can do before the frame is committed)
 	slow      bool
+	failAt    int // when > 0: the failAt-th Flush fails (the client went away in the middle of the stream)
+	flushes   int
+	failed    bool
 	buf       []byte
 	frames    []string
 	calls     []string
@@ -51,6 +55,12 @@ func (w *frameWriter) Flush() error {
 	w.note("flush")
 	if w.slow {
 		fedorders.ReleaseParked(4000)
+	}
+	w.flushes++
+	if w.failAt > 0 && w.flushes == w.failAt {
+		w.failed = true
+		w.buf = nil
+		return errors.New("write: broken pipe")
 	}
 	w.frames = append(w.frames, string(w.buf))
 	w.buf = nil
@@ -138,7 +148,10 @@ type obs struct {
 func exec(lab *fedlab.Lab, q string) obs { return execWith(lab, q, false) }
 
 func execWith(lab *fedlab.Lab, q string, slowFlush bool) obs {
-	w := &frameWriter{slow: slowFlush}
+	return execWriter(lab, q, &frameWriter{slow: slowFlush})
+}
+
+func execWriter(lab *fedlab.Lab, q string, w *frameWriter) obs {
 	lab.Sim.Reset()
 	err := lab.Engine.Execute(context.Background(), &graphql.Request{Query: q}, w)
 	return obs{w: w, err: err}
@@ -518,6 +531,31 @@ func TestCheck(t *testing.T) {
 					judge(fedorders.RunOne(lab.Sim, nil, func() any { return execWith(lab, q, true) }))
 					execs++
 					run.Count("slow_flush_executions", 1)
+					// and with a writer whose k-th Flush fails, for every k after the first
+					// frame: the stream must still be terminated exactly once and nothing
+					// may be written afterwards
+					for k := 2; k <= 6; k++ {
+						wf := &frameWriter{failAt: k}
+						x := fedorders.RunOne(lab.Sim, nil, func() any { return execWriter(lab, q, wf) })
+						if !wf.failed {
+							break // fewer than k flushes
+						}
+						execs++
+						run.Count("failed_flush_executions", 1)
+						var ff []fail
+						if x.Stuck {
+							ff = append(ff, fail{"the stream always terminates", "execution wedged after a failed flush", strings.Join(wf.calls, " ")})
+						} else if wf.completes != 1 {
+							ff = append(ff, fail{"the stream always terminates", fmt.Sprintf("Complete called %d times after flush %d failed", wf.completes, k), strings.Join(wf.calls, " ")})
+						} else if len(wf.afterDone) > 0 {
+							ff = append(ff, fail{"the stream is well-formed", "writer call after Complete (failed flush)", strings.Join(wf.afterDone, " ")})
+						}
+						for _, fl := range ff {
+							run.Violate(vk.Violation{Clause: fl.clause, Site: fl.site, Class: f.name + deferClass(f.s, q),
+								Detail: fmt.Sprintf("operation %s\nflush %d fails\n%s", q, k, fl.detail),
+								Input:  map[string]any{"family": f.name, "op": q, "order": []int{}, "fail_flush": k}})
+						}
+					}
 					run.Eval(int64(execs))
 					run.AddStates(int64(points)+1, int64(points), int64(execs))
 					if capped {
